@@ -95,7 +95,38 @@ def run_case(part, spec, rec, pid):
 
 def viol_dict(part, v, seed, tier):
     return {'part': part.name, 'key': v.key, 'message': v.msg, 'extra': core.jsonable(v.extra),
-            'spec': core.jsonable(v.spec), 'seed': seed, 'tier': tier}
+            'spec': core.jsonable(v.spec), 'seed': seed, 'tier': tier, 'prelude': _PRELUDE['ran']}
+
+
+_PRELUDE = {'ran': False}
+
+
+def _maybe_prelude(mod, shard, rec, force=False):
+    """Odd-numbered shards first run the process-history medley of vlib/prelude.py (see there); a check module opts
+    out with PRELUDE = False (C10/C11 compare with pristine forked children).  VERIF_PRELUDE=0/1 forces it off/on."""
+    env = os.environ.get('VERIF_PRELUDE', '')
+    want = force or (env == '1') or (env != '0' and shard % 2 == 1)
+    if not want or not getattr(mod, 'PRELUDE', True):
+        return False
+    from vlib import prelude
+    devnull = os.open(os.devnull, os.O_WRONLY)
+    sys.stdout.flush()
+    sys.stderr.flush()
+    saved = [os.dup(1), os.dup(2)]
+    try:
+        os.dup2(devnull, 1)     # LAPACK prints "illegal value" notes for non-finite input straight to fd 1
+        os.dup2(devnull, 2)
+        n = prelude.run()
+    finally:
+        os.dup2(saved[0], 1)
+        os.dup2(saved[1], 2)
+        os.close(saved[0])
+        os.close(saved[1])
+        os.close(devnull)
+    _PRELUDE['ran'] = True
+    rec.note('prelude_shards')
+    rec.note('prelude_operations', n)
+    return True
 
 
 # ----------------------------------------------------------------------------------------------------
@@ -110,6 +141,7 @@ def _worker(args):
     try:
         mod = importlib.import_module(modname)
         part = {p.name: p for p in mod.PARTS}[partname]
+        out['prelude'] = part.prelude and _maybe_prelude(mod, shard, rec)
         if part.kind == 'enum':
             nviol = 0
             for idx, spec in enumerate(part.items(tier)):
@@ -128,6 +160,8 @@ def _worker(args):
         elif part.kind == 'hyp':
             vs = _hyp_drive(part, rec, pid, n_examples, seed * 1000 + shard, tier)
             out['violations'] = [viol_dict(part, v, seed, tier) for v in vs]
+        elif part.kind == 'fuzz':
+            return _fuzz_shard(args, out, rec, t0)
         else:
             raise HarnessError('unknown part kind ' + part.kind)
     except HarnessError as e:
@@ -137,6 +171,40 @@ def _worker(args):
     out['rec'] = rec.export()
     out['wall'] = time.time() - t0
     return out
+
+
+def _fuzz_shard(args, out, rec, t0):
+    """kind 'fuzz': a coverage-guided campaign in a fresh interpreter (vlib/fuzzworker.py); see there."""
+    import pickle
+    import re
+    import tempfile
+    modname, partname, shard, nshards, n_examples, seed, tier, pid = args
+    fd, path = tempfile.mkstemp(prefix='mitxfuzz.', suffix='.pickle', dir='/var/tmp')
+    os.close(fd)
+    try:
+        env = dict(os.environ, PYTHONPATH=HERE)
+        r = subprocess.run([sys.executable, '-m', 'vlib.fuzzworker', modname, partname, str(shard), str(n_examples),
+                            str(seed), tier, pid, path], cwd=HERE, env=env, stdout=subprocess.DEVNULL,
+                           stderr=subprocess.PIPE, text=True, errors='replace')
+        try:
+            with open(path, 'rb') as f:
+                res = pickle.load(f)
+        except Exception:  # noqa: BLE001
+            out['error'] = 'fuzz worker for part %s shard %d left no result (rc=%s):\n%s' % (
+                partname, shard, r.returncode, r.stderr[-3000:])
+            out['rec'] = rec.export()
+            out['wall'] = time.time() - t0
+            return out
+        m = re.findall(r'cov: (\d+) ft: (\d+)', r.stderr)
+        if m:
+            res['rec']['maxima']['fuzz_coverage_edges'] = int(m[-1][0])
+            res['rec']['maxima']['fuzz_features'] = int(m[-1][1])
+        return res
+    finally:
+        try:
+            os.unlink(path)
+        except OSError:
+            pass
 
 
 def _hyp_drive(part, rec, pid, n_examples, hseed, tier):
@@ -214,7 +282,11 @@ def main(argv):
             for s in range(ns):
                 tasks.append((mod.__name__, p.name, s, ns, 0, seed, tier, pid))
         else:
-            total = p.budget[tier]
+            total = p.budget.get(tier, 0)
+            if p.kind == 'fuzz' and os.environ.get('VERIF_FUZZ_RUNS'):
+                total = int(os.environ['VERIF_FUZZ_RUNS'])      # development aid: cap / enable a campaign
+            if p.kind == 'fuzz' and (total <= 0 or os.environ.get('VERIF_FUZZ', '') == '0'):
+                continue   # coverage-guided campaigns belong to the thorough tier
             ns = min(p.shards or jobs, max(1, total // 20))
             for s in range(ns):
                 tasks.append((mod.__name__, p.name, s, ns, total // ns + (1 if s < total % ns else 0), seed, tier,
@@ -339,6 +411,8 @@ def finish(mod, pid, tier, seed, parts, results, wall):
 
     required = getattr(mod, 'REQUIRED', {})
     missing = {k: (classes.get(k, 0), n) for k, n in required.items() if classes.get(k, 0) < n}
+    if os.environ.get('VERIF_PARTS'):
+        missing = {}    # a partial run (development aid) cannot reach every class
     level = getattr(mod, 'LEVEL', 'exploration')
     ev = {
         'property_id': pid, 'tier': tier, 'seed': seed, 'level': level,
@@ -396,6 +470,8 @@ def replay(mod, pid, path):
         data = json.load(f)
     part = {p.name: p for p in mod.PARTS}[data['part']]
     rec = Rec()
+    if data.get('prelude'):
+        _maybe_prelude(mod, 1, rec, force=True)
     rec.begin()
     try:
         obs = part.judge(data['spec'], rec)
